@@ -45,11 +45,19 @@ SPEC = dict(
     id="C19", corr="Corr.C19", driver="h_c19", overlay=True, extra_overlay=_extra_overlay,
     targets=["Properties/C19.vo", "Corr/C19.vo"],
     args=lambda tier, seed: (["-seed", seed, "-n", 300, "-dfs", 1, "-stress", 4] if tier == "quick"
-                             else ["-seed", seed, "-n", 10000, "-dfs", 2, "-stress", 30]),
+                             else ["-seed", seed, "-n", 10000, "-dfs", 2, "-maxruns", 6000, "-stress", 30]),
     search_args=lambda seed: ["-seed", seed, "-n", 1500, "-dfs", 0],
     shard=150, timeout=1500,
     patterns={},
-    rule="TODO",
-    trusted_base=[KERNEL, CORR_TB],
-    assumptions=[],
+    rule="controlled schedules of the REAL pkg/sleep code (instrumented copy generated per run from the current sleep_unsafe.go after the standard three-line toolchain patch: a schedule point before every sync/atomic call and before gopark; one goroutine is granted one atomic operation at a time; API-call boundaries are steps of their own): exhaustive DFS over all schedules of small client sets with visited-real-state pruning (quick: 3 sets of 1 sleeper goroutine + 1 asserting goroutine on 1 waker: the classic prepare/re-check/commit window, assert-clear-reassert against blocking and non-blocking Fetch, Done racing with Assert then re-AddWaker; thorough: + 5 sets of 1 sleeper + 2-3 goroutines on 1-2 wakers, depth bound 48, at most 6000 runs per set) + seeded random walks (optionally sticky) over random client programs: thread 0 = AddWaker of 1-3 wakers (one possibly late, one possibly asserted before being added), 1-5 blocking/non-blocking Fetches, optional Done + re-AddWaker with new ids + Fetches, occasional Assert by the sleeper goroutine itself; 1-4 further goroutines x 1-4 calls of Assert (60%) / Clear (25%) / IsAsserted (15%) (quick 300 runs, thorough 10000). After EVERY step (stepping thread's schedule point, thread 0's point or parked, API return value, every w.s class, waitingG class, sharedList / localList / allWakers as id lists read through overlay-added accessors) is compared with the Coq model run on the same schedule with the same step function the theorems are about; at the end of a maximal run the model must agree that nothing is enabled. The sleeper's real park is predicted from the real state (gopark granted while waitingG == preparingG); a readied sleeper is awaited with a 2 s watchdog (hung = violation). + uncontrolled Gosched-injection ping-pong runs in the style of the dormant sleep_test.go (SEARCH AID ONLY, tag 5, not compared with the model). non-trivial = at least one step was scheduled (tag 1 sleeper never parked / never woken, 2 parked and woken by goready, 3 ended parked after having been woken, 4 Done executed); distinct = distinct case lines",
+    trusted_base=[KERNEL, CORR_TB,
+                  "Print Assumptions: every C19 theorem is closed under the global context (no axioms)",
+                  "modelled, not verified: pkg/sleep/sleep_unsafe.go + commit_noasm.go (hand-written Gallina transition system Model/Sleep.v at the granularity of the atomic operations, tied by the controlled-schedule run)",
+                  "the instrumenter harness/cmd/h_c19/instr (wraps the pointer operand of each sync/atomic call and of gopark with identity functions that first pass a schedule point) and the schedule-point runtime + read-only accessors harness/overlay/c19_sched.go.txt added to package sleep through go build -overlay",
+                  "the Go runtime: gopark(commitSleep)/goready behave as specified; gopark+commitSleep is ONE atomic step in the model and in the harness (commitSleep runs on the scheduler stack and cannot be interleaved by the harness), so a defect inside commitSleep is visible only to the stress run",
+                  "Go memory model: sync/atomic operations are sequentially consistent"],
+    assumptions=["client contract of pkg/sleep (written into the model): one goroutine (thread 0) calls AddWaker / Fetch / Done; AddWaker(w) only for a waker not currently attached; a waker is attached to at most one sleeper (the model has ONE sleeper; 'a new sleeper' after Done is the same zero-valued struct, which the theorems show it is); Assert / Clear / IsAsserted may be called from any goroutine at any time",
+                 "the intrusive lists are modelled as lists of waker indices (valid because w.next is written only by w's own enqueuer while w is in no list: theorem C19_queued_once)",
+                 "liveness is delivered as: no reachable stuck state (C19_not_stuck) + the thread that will goready is identified and at most 6 of its own steps away (C19_wakeup_is_near_partial); that the blocking Fetch then RETURNS additionally needs a fair scheduler and is not stated as a temporal theorem",
+                 "'completed assertion' in the non-blocking clause means the enqueue CAS has succeeded; with 'some Assert call has returned' the clause is false of the code (C19_nonblocking_fetch_api_refuted: an Assert that finds the waker already asserted returns before the asserting call has pushed)"],
 )
